@@ -530,7 +530,9 @@ def finish_connect(w, s, box, dest):
     s.role = "client"
     c = Conn(len(w.conns), s, server)
     s.conn = server.conn = c
-    c.broken = not server.open or server.dead
+    # either end may have been frame-rejected (a datagram hit its address)
+    # between the CC and this bookkeeping step
+    c.broken = not server.open or server.dead or s.dead
     w.conns.append(c)
     w.count("connections")
     if len([x for x in w.socks[peer] if x.group is server.group
